@@ -415,7 +415,8 @@ def r18_4(ctx, run, rule='R18.4'):
         b = f.bodies[p]
         if b.kind == 'Promoted':
             continue
-        # (a) int -> float casts of 64-bit integers
+        # (a) int -> float casts of 64-bit integers: lossy unless the operand is confined to [-2^53, 2^53] on the path
+        wide = []
         for bb, i, s in b.all_stmts():
             if s['k'] != 'assign' or s['rv']['k'] != 'cast':
                 continue
@@ -423,10 +424,38 @@ def r18_4(ctx, run, rule='R18.4'):
             if rv['kind'] == 'IntToFloat':
                 src_ty = operand_ty(b, rv['op'])
                 if src_ty in ('i64', 'u64', 'i128', 'u128', 'usize', 'isize'):
-                    n_casts += 1
-                    run.violation(rule, p, f'cast[{src_ty} as {rv["to"]["s"]}]',
-                                  f'a 64-bit integer is converted to {rv["to"]["s"]} on the way to a comparison: integers beyond 2^53 are rounded, so distinct numbers '
-                                  'compare Equal and the order is not transitive', f"{s.get('file')}:{s.get('line')}")
+                    wide.append((src_ty, rv['to']['s'], f"{s.get('file')}:{s.get('line')}"))
+        if wide:
+            n_casts += len(wide)
+            EXACT = IntervalSet([(-(1 << 53), 1 << 53)])
+            psx, _ = explore(b)
+            seen_exact = 0
+            inexact = None
+            for q in psx:
+                terms = [(a, e[6]) for e in q.events if e[0] == 'call' for a in e[2]] + ([(q.ret, len(q.conds))] if q.end[0] == 'return' and q.ret is not None else [])
+                for (t_, ci) in terms:
+                    for x in subterms(t_):
+                        if x[0] == 'cast' and x[1] == 'IntToFloat':
+                            pf = PathFacts(q.conds[:ci])
+                            if pf.infeasible():
+                                continue
+                            r = pf.range_of_term(x[2])
+                            src = x[2]
+                            if src[0] in ('init', 'hav'):
+                                tyr = INT_RANGES.get(str(b.local_ty(src[1]).get('s')))
+                                if tyr:
+                                    r = r.intersect(IntervalSet([tyr]))
+                            if not r.empty() and r.subset_of(EXACT):
+                                seen_exact += 1
+                            else:
+                                inexact = (show(src)[:40], str(r))
+            src_ty, to_ty, loc_ = wide[0]
+            if inexact is None and seen_exact:
+                run.proved(rule, p, f'cast[{src_ty} as {to_ty}]', f'the integer is confined to [-2^53, 2^53] on every path that converts it ({seen_exact} conversion path(s)): the conversion is exact', loc_)
+            else:
+                run.violation(rule, p, f'cast[{src_ty} as {to_ty}]',
+                              f'a 64-bit integer is converted to {to_ty} on the way to a comparison' + (f' ({inexact[0]} ranges over {inexact[1]})' if inexact else '') +
+                              ': integers beyond 2^53 are rounded, so distinct numbers compare Equal and the order is not transitive', loc_)
         # (b) float -> int casts must be range-guarded on every path
         ps, capped = explore(b)
         sites = {}
